@@ -776,6 +776,11 @@ func (r *Run) writeEvidence(nviol int) {
 	}
 	b, _ := json.MarshalIndent(ev, "", " ")
 	dir := filepath.Join(VerifDir, "evidence")
+	// evidence describes a complete run of the check against /repo itself: a partial run
+	// (VERIF_ONLY) or a run against a scratch tree (VERIF_REPO) writes elsewhere
+	if os.Getenv("VERIF_ONLY") != "" || (os.Getenv("VERIF_REPO") != "" && filepath.Clean(os.Getenv("VERIF_REPO")) != "/repo") {
+		dir = filepath.Join(VerifDir, ".build", "evidence-scratch")
+	}
 	_ = os.MkdirAll(dir, 0o755)
 	if err := os.WriteFile(filepath.Join(dir, r.ID+".json"), append(b, '\n'), 0o644); err != nil {
 		fmt.Fprintln(os.Stderr, "evidence:", err)
